@@ -577,29 +577,35 @@ pub fn execute(host: HostKind, p: &P, history: &[Step], hints: &[bool]) -> (Host
         return (h, None, last.1, None);
     }
     for (i, s) in history.iter().enumerate() {
-        let mut res = None;
-        let mut call_obs = None;
-        match s.act {
-            Act::Observe => {}
-            Act::Resolve(hd) => {
-                let (r, o) = h.resolve(hd, fresh_value(i), hints.get(i).copied().unwrap_or(true));
-                res = r;
-                call_obs = o;
-            }
-            Act::Malformed(hd) => {
-                let (r, o) = h.malformed(hd);
-                res = r;
-                call_obs = o;
-            }
-            Act::Drop(hd) => h.drop_handle(hd),
-            Act::Abort(k) => {
-                h.abort(k);
-            }
-        }
-        let after = if s.observe && !h.dead { Some(h.observe()) } else { None };
-        last = (res, call_obs, after);
+        last = step_on(&mut h, *s, i, hints.get(i).copied().unwrap_or(true));
     }
     (h, last.0, last.1, last.2)
+}
+
+/// One step of a history on a live host: (result of a resolve, observation of the call itself,
+/// observation after it).
+pub fn step_on(h: &mut Host, s: Step, i: usize, hint: bool) -> (Option<Res>, Option<ObsOut>, Option<ObsOut>) {
+    let mut res = None;
+    let mut call_obs = None;
+    match s.act {
+        Act::Observe => {}
+        Act::Resolve(hd) => {
+            let (r, o) = h.resolve(hd, fresh_value(i), hint);
+            res = r;
+            call_obs = o;
+        }
+        Act::Malformed(hd) => {
+            let (r, o) = h.malformed(hd);
+            res = r;
+            call_obs = o;
+        }
+        Act::Drop(hd) => h.drop_handle(hd),
+        Act::Abort(k) => {
+            h.abort(k);
+        }
+    }
+    let after = if s.observe && !h.dead { Some(h.observe()) } else { None };
+    (res, call_obs, after)
 }
 
 // ---------------------------------------------------------------------------------------------
@@ -637,6 +643,46 @@ pub struct Found {
     pub history: Vec<Step>,
 }
 
+/// Scripted exploration: instead of branching over every enabled step, one step is chosen per
+/// depth by a fixed rule. Used for *long* histories over *large* programs (thresholds at constants
+/// in the code are out of reach of the depth-bounded tree); every scripted history is executed and
+/// checked step by step like any other.
+#[derive(Clone, Copy, Debug, PartialEq, Eq)]
+pub enum Policy {
+    /// answer the oldest outstanding request
+    LowFirst,
+    /// answer the newest outstanding request
+    HighFirst,
+    /// oldest, newest, oldest, ...
+    Alternate,
+    /// like LowFirst, but every third step drops the oldest instead (hosts that can drop)
+    DropThird,
+    /// like LowFirst, observing only after every second answer (command-level hosts)
+    SilentPairs,
+}
+
+impl Policy {
+    fn pick(self, steps: Vec<Step>, depth: usize) -> Vec<Step> {
+        if steps.iter().any(|s| s.act == Act::Observe) {
+            return steps.into_iter().filter(|s| s.act == Act::Observe).take(1).collect();
+        }
+        let resolves = |obs: bool| -> Vec<Step> { steps.iter().copied().filter(|s| matches!(s.act, Act::Resolve(_)) && s.observe == obs).collect() };
+        let drops: Vec<Step> = steps.iter().copied().filter(|s| matches!(s.act, Act::Drop(_)) && s.observe).collect();
+        let seen = resolves(true);
+        let low = seen.first().copied();
+        let high = seen.last().copied();
+        let choice = match self {
+            Policy::LowFirst => low,
+            Policy::HighFirst => high,
+            Policy::Alternate => if depth % 2 == 0 { low } else { high },
+            Policy::DropThird => if depth % 3 == 2 { drops.first().copied().or(low) } else { low },
+            Policy::SilentPairs => if depth % 2 == 1 { resolves(false).first().copied().or(low) } else { low },
+        };
+        // nothing left to answer: release what is still held (ends subscriptions), oldest first
+        choice.or(drops.first().copied()).into_iter().collect()
+    }
+}
+
 pub struct Explorer<'a> {
     pub host: HostKind,
     pub p: &'a P,
@@ -646,14 +692,58 @@ pub struct Explorer<'a> {
     pub node_cap: u64,
     pub sample: Option<Vec<Step>>,
     pub deadline: Option<&'a mc_kit::Deadline>,
+    pub policy: Option<Policy>,
 }
 
 impl<'a> Explorer<'a> {
     pub fn new(host: HostKind, p: &'a P, bounds: &'a Bounds) -> Self {
-        Explorer { host, p, bounds, stats: Stats::default(), found: vec![], node_cap: u64::MAX, sample: None, deadline: None }
+        Explorer { host, p, bounds, stats: Stats::default(), found: vec![], node_cap: u64::MAX, sample: None, deadline: None, policy: None }
+    }
+
+    /// One scripted history on one live host (no branching, so nothing has to be re-executed).
+    fn run_scripted(&mut self, pol: Policy) {
+        self.stats.programs = 1;
+        let mut chk = Checker::new(self.host, self.p);
+        let mut h = Host::new(self.host);
+        let start_call = h.start(self.p);
+        self.stats.states += 1;
+        if self.host.is_core() {
+            self.stats.steps_executed += 1;
+            if let Err(f) = chk.apply_settle(&start_call.unwrap(), false) {
+                self.found.push(Found { failure: f, history: vec![] });
+                return;
+            }
+        }
+        let mut hist: Vec<Step> = vec![];
+        while hist.len() < self.bounds.depth {
+            let steps = pol.pick(chk.enabled(self.p, self.bounds, hist.len()), hist.len());
+            let Some(st) = steps.first().copied() else { break };
+            let mut hint = true;
+            if let Act::Resolve(hd) = st.act {
+                hint = chk.predict_resolve(hd, 0).iter().all(|r| *r == Res::Ok);
+            }
+            let idx = hist.len();
+            hist.push(st);
+            let (res, call, after) = step_on(&mut h, st, idx, hint);
+            self.stats.steps_executed += 1;
+            self.stats.transitions += 1;
+            match self.check_step(&mut chk, st, idx, res, call, after, &h) {
+                Ok(()) => self.stats.states += 1,
+                Err(f) => {
+                    self.found.push(Found { failure: f, history: hist.clone() });
+                    return;
+                }
+            }
+        }
+        self.stats.histories += 1;
+        self.stats.max_depth = self.stats.max_depth.max(hist.len());
+        self.sample = Some(hist);
     }
 
     pub fn run(&mut self) {
+        if let Some(pol) = self.policy {
+            return self.run_scripted(pol);
+        }
         self.stats.programs = 1;
         let chk = Checker::new(self.host, self.p);
         let mut hist = vec![];
@@ -687,7 +777,10 @@ impl<'a> Explorer<'a> {
             return;
         }
         // `enabled` consults the thread-local abort table of the last build: rebuild it cheaply
-        let steps = chk.enabled(self.p, self.bounds, hist.len());
+        let mut steps = chk.enabled(self.p, self.bounds, hist.len());
+        if let Some(pol) = self.policy {
+            steps = pol.pick(steps, hist.len());
+        }
         if steps.is_empty() {
             self.stats.histories += 1;
             self.stats.max_depth = self.stats.max_depth.max(hist.len());
